@@ -45,7 +45,8 @@ def archs(tier):
 def bound(tier):
     return dict(architectures=[a for a, _ in archs(tier)], patterns=3, deviations="1 on listed cube, 2 where <= 8 parameters per network (thorough)",
                 pairs="all (sigma, sigma')", call_forms=["rho(space,space)", "rho(space)", "rho(v_list,vp_list,expand=False)",
-                                                        "rho(v,vp) for every 1-D pair", "rho(space,expand=False)", "rho(space, space[:m])"])
+                                                        "rho(v,vp) for every 1-D pair", "rho(space,expand=False)", "rho(space, space[:m])", "rho(x, x) / rho(x, x, expand=False) with the same object"],
+                sampler="Gibbs kernel from the library's conditionals (out= none/ones/zeros) on [1,1,1],[2,1,2],[2,2,1],[3,2,2]" + ("" if tier == "quick" else ",[3,3,2],[4,2,2]") + " x 4 parameter patterns: invariance + detailed balance")
 
 
 def plan(tier, seed):
